@@ -22,75 +22,6 @@ Proof.
   rewrite <- (rep_pl _ _ _ H). unfold pget. rewrite nth_error_map. unfold tget, TreeSpec.get in Ho. rewrite Ho. reflexivity.
 Qed.
 
-(** ---- connectNamedObjArgs over objects that are not named objects of the table being loaded ---- *)
-Definition conn_ok (g : ghost) (h : N) (y : N) (a : pay) : Prop :=
-  exists op flags af, opInfo (y_info a) = Some (op, flags, af) /\
-    negb (hasFlag flags aml_pOpFlagNamed) || negb (y_th a =? h) || (hd InvalidIndex (kids g y) =? InvalidIndex) || (y_op a =? aml_pOpIntScopeBlock) = true.
-
-Section ConnS.
-Variable g : ghost.
-Variable pl : list pay.
-Variable h : N.
-Variable S : N -> Prop.
-Hypothesis Sclosed : forall y c, S y -> In c (kids g y) -> S c.
-Hypothesis Hall : forall y a, S y -> pget pl y = Some a -> y_op a <> opFreed -> conn_ok g h y a.
-
-Definition CWs (f : nat) : Prop := forall x a s, Rep (p_tree s) g pl -> p_handle s = h -> S x ->
-  pget pl x = Some a -> y_op a <> opFreed -> fwalkb g f x ->
-  wp False (connectNamedObjArgs f x) s (fun r s' => r = ROk /\ s' = s).
-
-Definition CLs (f : nat) : Prop := forall p lr l2 s, Rep (p_tree s) g pl -> p_handle s = h ->
-  kids g p = rev lr ++ l2 -> (forall c, In c lr -> S c) -> floopb g f lr ->
-  wp False (connectNamed_loop f p (hd InvalidIndex lr)) s (fun r s' => r = ROk /\ s' = s).
-
-Lemma conn_step f p lr c l2 a s (Q : pres -> pstate -> Prop) :
-  CWs f -> Rep (p_tree s) g pl -> p_handle s = h -> kids g p = rev lr ++ c :: l2 -> S c -> pget pl c = Some a -> y_op a <> opFreed ->
-  fwalkb g f c ->
-  wp False (connectNamed_loop f p (hd InvalidIndex lr)) s Q ->
-  wp False (connectNamed_loop (Datatypes.S f) p c) s Q.
-Proof.
-  intros IHw H Hh Hk HS Hac Hlc Hfc K. rewrite connectNamed_loop_S. rewrite (rep_not_Inv _ _ _ _ _ H Hac).
-  apply wp_bind. eapply wp_objectAt_rep; [exact H|exact Hac|exact Hlc|].
-  apply wp_bind. eapply (wp_rdf_sib False p (rev lr) c l2); [exact H|exact Hk|]. intros o' Hidx _ _ _ _. rewrite Hidx.
-  apply wp_bind. eapply wp_conseq; [apply (IHw c a s H Hh HS Hac Hlc Hfc)|]. intros r0 s' (-> & ->).
-  change (negb (pres_eqb ROk ROk)) with false. cbv iota zeta.
-  destruct (Hall c a HS Hac Hlc) as (op & flags & af & Hrow & Hcond).
-  apply wp_bind. eapply wp_rdo_rep; [exact H|exact Hac|exact Hlc|]. intros ao Hpay _ Hfirst _.
-  rewrite (pay_info _ _ Hpay). apply wp_bind. eapply wp_info; [exact Hrow|]. cbv beta iota.
-  apply wp_bind, wp_get. rewrite (pay_th _ _ Hpay), (pay_op _ _ Hpay), Hfirst, Hh, Hcond.
-  apply wp_bind. eapply (wp_rdf_sib False p (rev lr) c l2); [exact H|exact Hk|]. intros o _ _ Hprev _ _. rewrite Hprev, last_rev_hd. exact K.
-Qed.
-
-Lemma connS_walk f : CLs f -> CWs (Datatypes.S f).
-Proof.
-  intros IHl x a s H Hh HSx Ha Hl Hf. rewrite connectNamedObjArgs_S.
-  apply wp_bind. eapply wp_objectAt_rep; [exact H|exact Ha|exact Hl|].
-  apply wp_bind. eapply wp_rdf_rep; [exact H|exact Ha|exact Hl|]. intros o _ _ _ Hlast. rewrite Hlast.
-  cbn [fwalkb] in Hf. rewrite <- (rev_involutive (kids g x)) at 1. rewrite last_rev_hd.
-  apply (IHl x (rev (kids g x)) [] s H Hh); [rewrite rev_involutive, app_nil_r; reflexivity| |exact Hf].
-  intros c Hc. apply in_rev in Hc. eapply Sclosed; eauto.
-Qed.
-
-Lemma connS_loop f : CWs f -> CLs f -> CLs (Datatypes.S f).
-Proof.
-  intros IHw IHl p lr l2 s H Hh Hk HS Hf.
-  destruct lr as [|c r]; cbn [hd]; [rewrite connectNamed_loop_S, N.eqb_refl; apply wp_ret; auto|].
-  cbn [rev] in Hk. rewrite <- app_assoc in Hk. cbn [app] in Hk.
-  assert (Hin : In c (kids g p)) by (rewrite Hk; apply in_or_app; right; left; reflexivity).
-  destruct (rep_kid_pay _ _ _ _ _ H Hin) as (ac & Hac & Hlc).
-  cbn [floopb] in Hf. destruct Hf as [Hfc Hfr].
-  eapply (conn_step f p r c l2 ac s); [exact IHw|exact H|exact Hh|exact Hk|apply HS; left; reflexivity|exact Hac|exact Hlc|exact Hfc|].
-  apply (IHl p r (c :: l2) s H Hh); [exact Hk| |exact Hfr]. intros c' Hc'. apply HS. right. exact Hc'.
-Qed.
-
-Lemma connS_all : forall f, CWs f /\ CLs f.
-Proof.
-  induction f as [|f (IHw & IHl)].
-  - split; intro; intros; cbn in *; contradiction.
-  - split; [apply connS_walk; exact IHl|apply connS_loop; assumption].
-Qed.
-End ConnS.
-
 Lemma rallr_mono (P Q : rose -> Prop) : (forall r, P r -> Q r) -> forall r, rallr P r -> rallr Q r.
 Proof.
   intros HPQ. induction r as [i a ks IH] using rose_ind2. intros Hr. apply rallr_inv in Hr. destruct Hr as (Hp & Hks).
@@ -101,11 +32,11 @@ Lemma conn_ok_f1 g h0 tbl0 H0 i a ks : f1_ok h0 tbl0 (RN i a ks) -> h0 <> H0 -> 
 Proof.
   intros Hk Hne Hne0. assert (E : (h0 =? H0) = false) by (apply N.eqb_neq; exact Hne). assert (E0 : (0 =? H0) = false) by (apply N.eqb_neq; exact Hne0).
   cbn [f1_ok] in Hk.
-  destruct Hk as [(nm & ->)|[(bk & off & nm & p & po & rest & -> & _)|[(off & w & v & -> & _)|[(off & ->)|[(off & -> & _)|[(off & nm & p & po & c & co & d & -> & _ & _)|[(off & d & -> & Hc & _)|[(lk & off & nm & p & po & rest & -> & _)|(off & bs & -> & _)]]]]]]]].
+  destruct Hk as [(nm & ->)|[(bk & off & nm & p & po & rest & -> & _)|[(off & w & v & -> & _)|[(off & ->)|[(off & -> & _)|[(off & nm & p & po & c & co & d & -> & _ & _)|[(off & d & -> & Hc & _)|[(lk & off & nm & p & po & rest & -> & _)|[(off & bs & -> & _)|[(off & nm & p & po & rest & -> & _)|(off & ->)]]]]]]]]]].
   all: try (destruct bk); try (destruct w); try (destruct lk);
     try (unfold cst_pay; cbn [y_info y_op y_th]; destruct (is_constb_cases _ Hc) as [E1|[E1|[E1|[E1|[E1|[E1|E1]]]]]]; rewrite E1);
     (do 3 eexists; split; [reflexivity|]);
-    cbn [blk_pay num_pay sb_pay pth_pay nam_pay lf_pay str_pay y_th y_op]; rewrite ?E, ?E0, ?N.eqb_refl; cbn [negb orb]; rewrite ?orb_true_r; reflexivity.
+    cbn [blk_pay num_pay sb_pay pth_pay nam_pay lf_pay str_pay pkg_pay y_th y_op]; rewrite ?E, ?E0, ?N.eqb_refl; cbn [negb orb]; rewrite ?orb_true_r; reflexivity.
 Qed.
 
 (** ---- the first table ---- *)
